@@ -30,6 +30,13 @@ CHECKS = {
   text="Coverage pass forcing every (state, command, backend outcome) triple for each of 84 configurations (transport x InsecureAuth x greeting x session kind x caps), then seeded random command histories. Every backend call is checked against the reference state at call time; credentials never reach the backend on plaintext without InsecureAuth; capability lists checked against state.",
   design_ref="DESIGN.md §3 C05",
   note="Trusts the reference state machine in checks/c05 and crypto/tls; Unselect / Expunge-in-CLOSE failures are not scripted."),
+
+ "C04": dict(
+  category="exploration",
+  technique="runtime trace monitor: raw lock-step client against a real imapserver connection with a recording stub backend; payloads are marker commands with unique tags/names; the dialogue generator is the reference framer; the vconn park signal decides 'no response is coming'; race detector on",
+  text="Dialogues over command templates in all three states x string argument forms (quoted / sync / non-sync / literal8) x announced sizes around 4096 and the APPEND limit x server literal policies, syntax errors before literals, trailing garbage, AUTHENTICATE and IDLE exchanges, plus random multi-command dialogues. Decides: every tagged response answers a command that was really sent, exactly once; no backend call originates from payload text; output is whole well-formed lines; '+' only when a sync literal / AUTHENTICATE / IDLE waits for it; accepted literal arguments arrive byte-exact.",
+  design_ref="DESIGN.md §3 C04",
+  note="For a refused non-synchronising literal both RFC 7888 behaviours (discard, close) are accepted. Trusts the independent tokenizer internal/wiretok and the dialogue generator's by-construction knowledge of payload bytes."),
 }
 
 NOT_YET = "check not built yet in this round (planned in DESIGN.md §3; runtime monitoring applies)"
